@@ -11,7 +11,8 @@ From Verif Require Import Prelude Barcode Utf8M.
 From Verif Require Import EanM EanSpec CodabarM CodabarSpec TwoOfFiveM TwoOfFiveSpec.
 From Verif Require Import Code128M Code128Spec Code39M Code39Spec Code93M Code93Spec.
 From Verif Require Import DataMatrixM DataMatrixSpec DataMatrixP1 QRM QRSpec QRP6Compose QRProps.
-From Verif Require Import C10P.
+From Verif Require Import AztecM AztecSpec AztecPConfig AztecProps TabPdf417 Pdf417M Pdf417Spec Pdf417Props.
+From Verif Require Import C10P C10AzP C10PdfP.
 
 Theorem C10_contract_means_total : forall A (r : outcome A) b, exact_acceptance r b ->
   r <> Panic /\ r <> OutOfFuel /\ ((exists x, r = Ok x) \/ r = Err).
@@ -69,4 +70,37 @@ Theorem C10_qr_capacity_examples :
   qr_representable (repeat 55 7089) 0 1 = true /\ qr_representable (repeat 55 7090) 0 1 = false
   /\ qr_representable (repeat 65 4296) 0 2 = true /\ qr_representable (repeat 65 4297) 0 2 = false
   /\ qr_representable (repeat 97 2953) 0 3 = true /\ qr_representable (repeat 97 2954) 0 3 = false.
-Proof. vm_compute. repeat split. Qed.
+Proof. exact qr_capacity_examples. Qed.
+Print Assumptions C10_qr_capacity_examples.
+
+(* Aztec, every payload, every percentage >= 0, EVERY int as layer request (incl. the extreme
+   values): the layer request is 0 or within -4..32 and the high-level bits plus the requested
+   share of check bits fit the requested configuration, resp. one of the 33 automatic ones.
+   az_in_domain: bytes, length < 2^57, pct >= 0 and hlbits*pct < 2^63 (the range in which Go's
+   int arithmetic agrees with Z). *)
+Theorem C10_aztec : forall data pct req, az_in_domain data pct ->
+  exact_acceptance (az_encode data pct req) (az_representable_b data pct req).
+Proof. exact az_exact. Qed.
+Print Assumptions C10_aztec.
+
+(* PDF417, every byte string and every security level byte 0..255; the column count is an oracle
+   (the implementation's aspect-ratio heuristic), the statement holds for EVERY oracle: a level
+   above 8 or more than 900 codewords (data + length descriptor + 2^(level+1) check words) is an
+   error whatever the heuristic answers; otherwise a legal column count exists and any legal one
+   yields a barcode; never a panic. *)
+Theorem C10_pdf417 : forall data level, pdf_bytes data -> 0 <= level <= 255 ->
+  (pdf_representable_b data level = false -> forall oracle, pdf_encode data level oracle = Err)
+  /\ (pdf_representable_b data level = true ->
+        exists dw, pdf_highlevel data = Ok dw
+        /\ (exists c, pdf_shape_ok (zlength dw) (pdf_ec_count level) c = true)
+        /\ forall oracle, pdf_shape_ok (zlength dw) (pdf_ec_count level) oracle = true ->
+             exists bc, pdf_encode data level oracle = Ok bc)
+  /\ (forall oracle, pdf_encode data level oracle <> Panic /\ pdf_encode data level oracle <> OutOfFuel).
+Proof. exact pdf_exact. Qed.
+Print Assumptions C10_pdf417.
+
+(* the hypotheses are satisfiable: a payload in the Aztec domain that is accepted *)
+Example C10_nonvacuous :
+  az_in_domain c03_hello 33 /\ az_representable_b c03_hello 33 0 = true
+  /\ ean_representable [53; 57; 48; 49; 50; 51; 52] = true.
+Proof. exact c10_examples. Qed.
